@@ -583,4 +583,39 @@ def r15_11(ctx):
     ctx.floor(n, 8, "segment reconstructions in Segment")
 
 
-RULES = [r15_1, r15_2, r15_3, r15_4, r15_5, r15_6, r15_7, r15_8, r15_9, r15_10, r15_11]
+def r15_12(ctx):
+    ctx.rule("R15.12", "a capture returns exactly what was printed, also when that is nothing: Capture.get refuses only while the result is still the `None` it was initialised with (an identity test); a truthiness test of the result also refuses the empty string - the legitimate result of a capture in which nothing visible was printed (print('', end=''), control codes on a non-terminal)")
+    c = ctx.repo.cls("console:Capture")
+    f = c.method("get")
+    init = c.method("__init__")
+    if f is None or init is None:
+        raise AnchorVanished("console:Capture.get / __init__ not found")
+    m = f.module
+    slot = None
+    for x in walk_local(init.node):
+        if isinstance(x, (ast.Assign, ast.AnnAssign)) and x.value is not None and isinstance(x.value, ast.Constant) and x.value.value is None:
+            t = x.targets[0] if isinstance(x, ast.Assign) else x.target
+            if isinstance(t, ast.Attribute) and norm(t.value) == init.params[0]:
+                slot = t.attr
+    if slot is None:
+        raise AnalysisError("Capture.__init__: no slot initialised with None; the availability test is written differently")
+    g = cfgmod.build(f.node)
+    sv = f"{f.params[0]}.{slot}"
+    n = 0
+    for nd in g.stmt_nodes():
+        if nd.kind != "stmt" or not isinstance(nd.stmt, ast.Raise):
+            continue
+        n += 1
+        facts = [(norm(t), v) for t, v in g.branch_facts(nd.id)]
+        ident = any((t == f"{sv} is None" and v is True) or (t == f"{sv} is not None" and v is False) for t, v in facts)
+        truthy = any((t == f"not {sv}" and v is True) or (t == sv and v is False) or (t in (f"{sv} == ''", f"len({sv}) == 0") and v is True) for t, v in facts)
+        if truthy and not ident:
+            ctx.violation(f.fq, short(nd.stmt), f"{m.relpath}:{nd.lineno}", f"Capture.get raises when `{sv}` is falsy: an empty capture (nothing visible printed) is reported as 'not available' instead of returning ''")
+        elif ident:
+            ctx.ok(f"{m.relpath}:{nd.lineno}", "get() refuses only while the result is None", f.fq)
+        else:
+            raise AnalysisError(f"Capture.get: the raise at line {nd.lineno} is not guarded by a test of `{sv}` this rule reads")
+    ctx.floor(n, 1, "raise sites in Capture.get")
+
+
+RULES = [r15_1, r15_2, r15_3, r15_4, r15_5, r15_6, r15_7, r15_8, r15_9, r15_10, r15_11, r15_12]
